@@ -284,9 +284,11 @@ def _plumbing(model, rep, mod, ci):
     if call is None:
         raise AnalysisError('Lij: call of _symmetricandescaperates not found')
     targets = [unparse(e) for e in call.targets[0].elts] if isinstance(call.targets[0], ast.Tuple) else []
-    ok = targets == order
-    rep.ob('plumbing', mod, call, '_symmetricandescaperates returns %s ; Lij unpacks %s' % (order, targets), ok,
-           '' if ok else 'rates are bound to the wrong names in Lij', engine='tables')
+    # positions, not names: what Lij calls the k-th returned array is its own business; the family each position carries is
+    # taken from how the callee builds it and checked where Lij contracts it (contraction-family)
+    ok = len(targets) == len(order)
+    rep.ob('plumbing', mod, call, '_symmetricandescaperates returns %d arrays ; Lij unpacks %d' % (len(order), len(targets)), ok,
+           '' if ok else 'Lij does not unpack what _symmetricandescaperates returns', engine='tables')
     sparams = [a.arg for a in sym.args.args[1:]]
     args = [unparse(a) for a in call.value.args]
     # positional correspondence by meaning: the k-th argument must be the Lij-level array of the same family
@@ -333,7 +335,13 @@ def _families(model, rep, mod, ci):
     rep.floor('expansion attributes typed', len(attr_fam), 16)
     vfam, order, _ = families.vector_families(model)
     lij = ci.methods['Lij']
-    local = {o: f for o, f in zip(order, vfam) if f}
+    # Lij's own names for the returned arrays, position by position
+    names = list(order)
+    for n_ in walk_local(lij):
+        if isinstance(n_, ast.Assign) and isinstance(n_.value, ast.Call) and unparse(n_.value.func) == 'self._symmetricandescaperates' \
+                and isinstance(n_.targets[0], ast.Tuple) and len(n_.targets[0].elts) == len(order):
+            names = [unparse(e) for e in n_.targets[0].elts]
+    local = {o: f for o, f in zip(names, vfam) if f}
     # symmetrised probabilities: family of the iterable
     for st in walk_local(lij):
         if isinstance(st, ast.Assign) and isinstance(st.targets[0], ast.Name) and isinstance(st.value, ast.Call) \
@@ -349,6 +357,9 @@ def _families(model, rep, mod, ci):
             if a is None and b is None:
                 continue
             n += 1
+            if a is None or b is None:
+                rep.undecided('Lij: family of one operand of %s not resolved (%s / %s)' % (unparse(c)[:70], a, b))
+                continue
             ok = a == b
             rep.ob('contraction-family', mod, c, 'np.dot(%s [%s], %s [%s])' % (unparse(c.args[0])[:50], a, unparse(c.args[1])[:50], b),
                    ok, '' if ok else 'an expansion over the %s classes is contracted with a vector over the %s classes '
